@@ -52,8 +52,19 @@ def _limit(v):
     return v
 
 
-def _cols(cols, kind):
-    cols = unj(cols)
+def _np_int(x, npk):
+    """A position as a numpy integer of the given kind (the Python int itself when the kind cannot hold it)."""
+    import numpy
+
+    if isinstance(x, bool) or not isinstance(x, int) or not npk:
+        return x
+    t = getattr(numpy, npk)
+    info = numpy.iinfo(t)
+    return t(x) if info.min <= x <= info.max else x
+
+
+def _cols(cols, kind, npk=None):
+    cols = [_np_int(x, npk) for x in unj(cols)]
     if kind == "single":
         return cols[0]
     if kind == "tuple":
@@ -63,17 +74,24 @@ def _cols(cols, kind):
     return list(cols)
 
 
-def _frame(names, rows, lazy):
+def _frame(names, rows, lazy, rs=None):
     from orso import DataFrame
 
     rows = [tuple(unj(r)) for r in rows]
+    schema = list(names)
+    if rs:
+        # a frame with a RelationSchema (typed columns) instead of a plain list of names
+        from orso.schema import FlatColumn, RelationSchema
+        from orso.types import OrsoTypes
+
+        schema = RelationSchema(name="c10", columns=[FlatColumn(name=n, type=getattr(OrsoTypes, t)) for n, t in zip(names, rs)])
     if lazy:
-        return DataFrame(rows=(r for r in rows), schema=list(names))
-    return DataFrame(rows=rows, schema=list(names))
+        return DataFrame(rows=(r for r in rows), schema=schema)
+    return DataFrame(rows=rows, schema=schema)
 
 
 def _public_collect(frame, c):
-    cols = _cols(c["cols"], c.get("ckind", "list"))
+    cols = _cols(c["cols"], c.get("ckind", "list"), c.get("np"))
     if c.get("via") == "getitem":
         return jn(frame[cols])
     if "limit" in c:
@@ -87,10 +105,10 @@ def _display(frame, c):
     via = c.get("via", "ascii")
     if via == "ascii":
         return ascii_table(frame, limit=c["limit"], display_width=False, max_column_width=c.get("mcw", 500),
-                           colorize=False, top_and_tail=bool(c.get("tt", True)), show_types=False)
+                           colorize=False, top_and_tail=bool(c.get("tt", True)), show_types=bool(c.get("types")))
     if via == "display":
         return frame.display(limit=c["limit"], display_width=False, max_column_width=c.get("mcw", 500),
-                             colorize=False, show_types=False)
+                             colorize=False, show_types=bool(c.get("types")))
     if via == "markdown":
         return frame.markdown(limit=c["limit"], max_column_width=c.get("mcw", 500))
     return str(frame)
@@ -130,7 +148,7 @@ def run_step(st, frames, classes):
     if "cls" in st and st["cls"] not in classes:
         return {"skip": True}
     if op == "frame":
-        frames[st["id"]] = _frame(st["names"], st["rows"], st.get("lazy", False))
+        frames[st["id"]] = _frame(st["names"], st["rows"], st.get("lazy", False), st.get("rs"))
         return {"ok": None}
     if op == "dicts":
         f = DataFrame([unj(d) for d in st["dicts"]])
